@@ -466,8 +466,10 @@ def install_os(E):
             E.effect('os.' + name, *args)
             if name in ('getpid',):
                 return VInt(E.fresh('pid', z3.IntSort()))
+            if name == 'fspath':
+                return args[0]          # the same path as str/bytes: names the same file
             if name in ('path.abspath', 'path.realpath', 'path.normpath', 'path.expanduser', 'path.expandvars',
-                        'fspath', 'path.normcase'):
+                        'path.normcase'):
                 # SOME other spelling of the path: textual normalisation (`..` collapsed before symlinks are
                 # resolved, `~` expanded, ...) may name a different file than the OS would open for the original
                 return E.fresh_val('path_after_' + name.split('.')[-1])
